@@ -14,7 +14,8 @@ from ..cfg import ReachingDefs
 
 CLAIM = ("static analysis (lock typestate over the CFG + who-may-write): necessary conditions of C11 - "
          "the cache lock is released on every path, never held across a yield, never released by a "
-         "non-holder, and the shared cache state is written only under it")
+         "non-holder, the shared cache state is written only under it, every element drawn from the shared generator "
+         "goes into the shared list, and a failed generator is replaced rather than read as exhausted")
 EXPLANATION = (
     "For every function of dateutil.rrule that touches a `_thread.allocate_lock()` attribute a forward "
     "typestate analysis (unheld/held/unknown) runs over a statement-level CFG with exceptional edges and "
@@ -28,7 +29,7 @@ EXPLANATION = (
     "generator and re-raising, never left to read as exhaustion (C11.GENFAIL, handler coverage of the draw sites). "
     "The schedule quantifier of C11 is replaced by a path quantifier over the CFG: a lock left held on ANY "
     "path is a deadlock for SOME schedule of two iterators.")
-TECHNIQUE = "lock typestate dataflow over a statement-level CFG + who-may-write and call-graph checks (ast only)"
+TECHNIQUE = "lock typestate dataflow over a statement-level CFG + who-may-write and call-graph checks, def-use of the generator alias (reaching definitions), exception-handler coverage of the draw sites (ast only)"
 ASSUMPTIONS = [
     "acquire()/release() themselves do not raise when correctly paired",
     "any statement containing a call, subscript or arithmetic may raise; a yield may be abandoned (GeneratorExit)",
